@@ -189,7 +189,7 @@ type Finding struct {
 	What      string `json:"what"`
 }
 
-func loadFindings(dir string) []Finding {
+func LoadFindings(dir string) []Finding {
 	var fs []Finding
 	b, err := os.ReadFile(filepath.Join(dir, "known_findings.json"))
 	if err != nil {
@@ -209,7 +209,7 @@ var unsafeChars = regexp.MustCompile(`[^A-Za-z0-9_.-]+`)
 // Finish writes replay artefacts and the evidence file, prints the verdict lines and
 // returns the process exit code (0 held / only known findings, 1 violation, 2 harness error).
 func (r *Report) Finish() int {
-	findings := loadFindings(r.Dir)
+	findings := LoadFindings(r.Dir)
 	known := map[string]Finding{}
 	for _, f := range findings {
 		if f.Property == r.Prop && f.Status == "finding" {
